@@ -81,3 +81,25 @@ __CPROVER_requires(__CPROVER_w_ok(self, sizeof(struct Sha256_L)) && __CPROVER_w_
 __CPROVER_ensures(sha_digest_is(digest) && sha_is_reset(self))
 __CPROVER_assigns(__CPROVER_object_upto((byte*)self, sizeof(struct Sha256_L)); __CPROVER_object_upto(digest, 32))
 ;
+
+/* ---- the abstract-hash interface of a Sha256 object, used to verify hmac() modularly:
+ * update(data,size) appends bytes to the object's message, finalize returns the (uninterpreted)
+ * hash of that message and resets the object.  hmac_update_ok / hmac_finalize_ok state the call
+ * sequence of RFC 2104 (harness/sha256.cpp); they are ASSERTED at every call site inside hmac. */
+extern int g_step;
+extern const struct Sha256* g_self;
+_Bool hmac_update_ok(const struct Sha256* self, const byte* data, usize size);
+_Bool hmac_finalize_ok(const struct Sha256* self);
+_Bool hmac_digest_written(const byte* digest, int step);
+void c_update_abstract(struct Sha256* self, const byte* data, usize size)
+__CPROVER_requires(size == 0 || __CPROVER_r_ok(data, size))
+__CPROVER_requires(hmac_update_ok(self, data, size))
+__CPROVER_ensures(g_step == __CPROVER_old(g_step) + 1 && g_self == self)
+__CPROVER_assigns(g_step, g_self)
+;
+void c_finalize_abstract(struct Sha256* self, byte* digest)
+__CPROVER_requires(__CPROVER_w_ok(digest, 32))
+__CPROVER_requires(hmac_finalize_ok(self))
+__CPROVER_ensures(g_step == __CPROVER_old(g_step) + 1 && hmac_digest_written(digest, __CPROVER_old(g_step)))
+__CPROVER_assigns(g_step; __CPROVER_object_upto(digest, 32))
+;
